@@ -4,9 +4,11 @@ C12 — both formatters change only white space and are idempotent.
 Part 1: the C indenter (`lib/dumbindent`), over `Model/Indent.lean`, which mirrors the
 REPAIRED `FormatBytes` (fixes/C12-dumbindent-stale-line.patch).  Helper lemmas:
 `Proof/IndentBasic.lean` (byte conservation, termination), `Proof/IndentWs.lean`
-(`normalise`, the line loop invariant).
+(`normalise`, the line loop invariant), `Proof/IndentIdem{,2,3}.lean` (congruence of the
+inner loop under trimmed trailing blanks and a changed continuation; idempotence).
 -/
 import WuffsVerif.Proof.IndentWs
+import WuffsVerif.Proof.IndentIdem3
 
 namespace WuffsVerif.Props.C12
 open WuffsVerif.Indent
@@ -139,5 +141,41 @@ example : format ⟨false, 0⟩
     [123, 10, 120, 59, 32, 47, 42, 32, 97, 10, 98, 32, 42, 47, 32, 121, 59, 32, 47, 42, 99, 42, 47, 32, 10, 125] =
     [123, 10, 32, 32, 120, 59, 32, 47, 42, 32, 97, 10, 98, 32, 42, 47, 32, 121, 59, 32, 47, 42, 99, 42, 47, 10, 125, 10] := by
   decide
+
+/-! ## Idempotence -/
+
+/-- `indent_idempotent`: re-indenting changes nothing — `format o (format o s) = format o s` —
+for every option and every text that is lexically closed in the indenter's own sense
+(`lexClosed`: every search for the end of a back-tick raw string or a slash-star comment that
+`FormatBytes` starts finds it; unterminated "…" / '…' are allowed).  Multi-line comments and
+raw strings, followed by more code, comments and strings on their last line, are covered: the
+proof is a simulation of the second run by the first (`scan_cong`: the inner loop does the same
+on `K ++ T₂` as it did on `K ++ blanks ++ T`). -/
+theorem indent_idempotent (o : Opts) (s : Bytes) (h : lexClosed o s = true) :
+    format o (format o s) = format o s :=
+  format_idem o s h
+
+/-- non-vacuity: the text with a multi-line comment followed by code and a second comment is closed -/
+example : lexClosed ⟨false, 0⟩
+    [123, 10, 120, 59, 32, 47, 42, 32, 97, 10, 98, 32, 42, 47, 32, 121, 59, 32, 47, 42, 99, 42, 47, 32, 10, 125] = true := by
+  decide
+
+/-- the hypothesis is needed: an unterminated comment with trailing blank lines grows by one
+newline per pass (`"/* a\n\n"`) -/
+example : format ⟨false, 0⟩ (format ⟨false, 0⟩ [47, 42, 32, 97, 10, 10]) ≠ format ⟨false, 0⟩ [47, 42, 32, 97, 10, 10] ∧
+    lexClosed ⟨false, 0⟩ [47, 42, 32, 97, 10, 10] = false := by
+  decide
+
+/-- the second run re-derives the same state: one code line, formatted again in any context,
+gives the same text and the same new state (`codeLine_cong`) -/
+theorem indent_line_stable (o : Opts) (ii : Nat) (st : St) (line tail text : Bytes) (st' : St) (tail' : Bytes)
+    (h : codeLine o ii st line tail = some (text, st', tail'))
+    (hclosed : codeLineClosed st line tail = true)
+    (hline : NL ∉ line) (c0 : UInt8) (l0 : Bytes) (hl0 : line = c0 :: l0) (hc0 : isWs c0 = false)
+    (htail : NlHead tail) (R : Bytes) :
+    ∃ (body : Bytes), text = List.replicate (codeIndent o ii st (nBracesAtLineStart st line)) o.indentByte ++ (body ++ [NL]) ∧
+      (∃ b, body = c0 :: b) ∧
+      codeLine o ii st (splitLine (body ++ NL :: R)).1 (splitLine (body ++ NL :: R)).2 = some (text, st', NL :: R) :=
+  codeLine_cong o ii st line tail text st' tail' h hclosed hline c0 l0 hl0 hc0 htail R
 
 end WuffsVerif.Props.C12
